@@ -36,6 +36,10 @@ func VerifValidatePostconditions() {
 	c.WriteTimeout = Duration(vnd.Int64("writeTimeout"))
 	c.WriteQueueSize = vnd.Int("writeQueueSize")
 	c.UDPMaxPayloadSize = vnd.Int("udpMaxPayloadSize")
+	if vnd.Bool("deprecatedReadBufferCountSet") { // the deprecated alias of writeQueueSize
+		n := vnd.Int("readBufferCount")
+		c.ReadBufferCount = &n
+	}
 
 	name := []string{"cam", "~^r(.*)$", "all_others"}[vnd.Choose("name", 3)]
 	source := []string{"publisher", "rtsp://host/path", "redirect", "not a source"}[vnd.Choose("source", 4)]
